@@ -72,6 +72,26 @@ class FW:
     def __len__(self):
         return sum(s[-1] if s[0] != 'lit' else len(s[1]) for s in self.segs)
 
+    zero_bits = {}       # (a, n) -> symbolic 0/1: is the opaque file content [a, a+n) all zero bytes?
+
+    def __iter__(self):
+        """iteration is only meaningful for questions like any(chunk) / all(chunk): every stretch of opaque file
+        content answers with one symbolic value that is 0 exactly if the whole stretch is zero bytes"""
+        for s in self.segs:
+            if s[0] == 'lit':
+                yield from s[1]
+            elif s[0] == 'zeros':
+                if s[-1]:
+                    yield 0
+            else:
+                key = (s[1], s[2])
+                if key not in FW.zero_bits:
+                    FW.zero_bits[key] = FW.path.int('file_%d_%d_has_nonzero_byte' % key, lo=0, hi=1)
+                yield FW.zero_bits[key]
+
+    def count(self, b):
+        raise core.EngineLimit('bytes.count on opaque firmware content')
+
     def __add__(self, o):
         if isinstance(o, (bytes, bytearray)):
             if any(o):
@@ -469,6 +489,7 @@ def run_once(p, L, variant, K, inject_mode, prof, sched='one'):
     ch, pages = VARIANTS[vi]
     prints, sleeps, holder, fwh = [], [], [None], {}
     FW.path, FW.tz = p, 0
+    FW.zero_bits = {}
     if L == 'oversize':
         n = p.int('L', lo=0, hi=1 << 30)
         p.assume(n > pages * PAGE)
@@ -617,6 +638,9 @@ def dfu_task(prop, L, variant, K, inject_mode, sched='one'):
                 res['violations'].append(dict(site, run=desc, schedule={k: v for k, v in inp.items() if not k.startswith('poll_ms')},
                                               what='; '.join(probs)[:400], replay=path))
             res.oblig(False)
+            if len(res['violations']) >= 5:
+                res['notes'].append('%s: stopped after 5 violations' % tag)
+                break
         else:
             res.oblig(True)
     if prop == 'C18' and L != 'oversize' and n_done == 0:
